@@ -58,6 +58,13 @@ def name_cases():
         cases.append({"routine": leaf("root", input_params=[nm], linked_params=[[nm, [[nm, "y"]]]],
                                       children=[leaf(nm, input_params=["y"], resources=[{"name": nm, "type": "additive", "value": E.sym("y")}])]),
                       "role": "link+child", "name": nm, "compiled": True})
+    # every pattern of directions over four ports whose NAME order is fixed (qref keeps ports name-sorted):
+    # ports of one direction separated by ports of another, in every arrangement
+    for dirs in itertools.product(["input", "output", "through"], repeat=4):
+        cases.append({"routine": leaf("root", input_params=["N"],
+                                      ports=[{"name": nm, "direction": d, "size": E.sym("N")} for nm, d in zip("abcd", dirs)],
+                                      resources=[{"name": "T", "type": "additive", "value": E.sym("N")}]),
+                      "role": "port-orders", "name": "".join(d[0] for d in dirs)})
     return cases
 
 
